@@ -1,6 +1,7 @@
 import RedactVerif.Props.L2
 import RedactVerif.Proofs.NI
 import RedactVerif.Props.FactsClassify
+import RedactVerif.Props.FactsSkelPrinter
 /-
 C08 — redactables compose: re-printing is identity, joining is concatenation.
 
